@@ -54,7 +54,7 @@ func (c17) RealStub() map[string]string {
 }
 func (c17) Runs(t Tier) int {
 	if t == Thorough {
-		return 30000
+		return 20000
 	}
 	return 1200
 }
